@@ -202,9 +202,16 @@ theorem findLoop_step (body : Prog) (ok : Val → Bool) (k : Val → Prog) (n : 
       · simp [hok, hu]
     · simp [hok]
 
-/-- `find`: a rejected attempt must leave the `*T` alone; an accepted one must keep something -/
-theorem ps_findLoop (body : Prog) (ok : Val → Bool) (k : Val → Prog)
-    (hb : PS body) (hpure : TsPure body) (hne : KeepsSome body) (hk : ∀ v, PS (k v)) :
+/-- `find`: a rejected attempt must leave the `*T` alone; an accepted one must be prune-stable and keep
+    something (nothing is asked of the replay of a rejected attempt: its bits are pruned) -/
+theorem ps_findLoop' (body : Prog) (ok : Val → Bool) (k : Val → Prog)
+    (hb : ∀ (src : Src) (ts : TS) (xs : List UInt64), Good (body.run src ts) →
+      (∀ v, (body.run src ts).res = .ok v → ok v = true) → ((body.run src ts).overran = true → xs = []) →
+      Replayed (body.run src ts) (body.run (.buf ((body.run src ts).kept ++ xs)) ts) xs)
+    (hpure : ∀ (src : Src) (ts : TS) (v : Val), (body.run src ts).res = .ok v → ok v = false → (body.run src ts).ts = ts)
+    (hne : ∀ (src : Src) (ts : TS) (v : Val), (body.run src ts).res = .ok v → ok v = true →
+      (body.run src ts).used ≠ [] → (body.run src ts).kept ≠ [])
+    (hk : ∀ v, PS (k v)) :
     ∀ (n m : Nat), n ≤ m → ∀ (src : Src) (ts : TS) (xs : List UInt64),
       Good ((findLoop body ok k n).run src ts) → (((findLoop body ok k n).run src ts).overran = true → xs = []) →
       Replayed ((findLoop body ok k n).run src ts)
@@ -221,7 +228,7 @@ theorem ps_findLoop (body : Prog) (ok : Val → Bool) (k : Val → Prog)
     cases hres : (body.run src ts).res with
     | error e =>
       simp only [hres] at hg ho ⊢
-      have r := hb src ts xs (good_of_res (by simp [hres]) hg) ho
+      have r := hb src ts xs (good_of_res (by simp [hres]) hg) (fun v h => by rw [hres] at h; cases h) ho
       rw [findLoop_step, r.res, hres]
       exact ⟨by simp [r.res, hres], r.src, r.ts, r.used, r.kept⟩
     | ok v =>
@@ -235,20 +242,20 @@ theorem ps_findLoop (body : Prog) (ok : Val → Bool) (k : Val → Prog)
             have hsub := kept_sublist body src ts
             rw [List.isEmpty_iff.mp hu] at hsub
             exact List.eq_nil_of_sublist_nil hsub
-          have r := hb src ts xs hgb ho
+          have r := hb src ts xs hgb (fun v' h => by rw [hres] at h; cases h; exact hok) ho
           have hu' : (body.run (.buf ((body.run src ts).kept ++ xs)) ts).used.isEmpty = true := by rw [r.used, hk0]; rfl
           rw [findLoop_step, r.res, hres]
           simp only [hok, hu', if_true]
           exact ⟨rfl, r.src, r.ts, r.used, r.kept⟩
         · simp only [hu, if_false, Bool.false_eq_true] at hg ho ⊢
           simp only [after_overran, Bool.or_eq_true] at ho
-          have hne' : (body.run src ts).kept ≠ [] := hne src ts v hres (by simpa [List.isEmpty_iff] using hu)
+          have hne' : (body.run src ts).kept ≠ [] := hne src ts v hres hok (by simpa [List.isEmpty_iff] using hu)
           have ho1 : (body.run src ts).overran = true → ((k v).run (body.run src ts).src (body.run src ts).ts).kept ++ xs = [] := by
             intro h
             have hs := overran_src body src ts h
             have := run_empty (k v) (body.run src ts).ts
             rw [hs, this.2.1, ho (Or.inl h)]; rfl
-          have r1 := hb src ts (((k v).run (body.run src ts).src (body.run src ts).ts).kept ++ xs) hgb ho1
+          have r1 := hb src ts (((k v).run (body.run src ts).src (body.run src ts).ts).kept ++ xs) hgb (fun v' h => by rw [hres] at h; cases h; exact hok) ho1
           simp only [after_kept, List.append_assoc]
           rw [findLoop_step, r1.res, hres]
           have hu1 : ¬ (body.run (.buf ((body.run src ts).kept ++ (((k v).run (body.run src ts).src (body.run src ts).ts).kept ++ xs))) ts).used.isEmpty = true := by
@@ -260,9 +267,19 @@ theorem ps_findLoop (body : Prog) (ok : Val → Bool) (k : Val → Prog)
       · simp only [hok, if_false, Bool.false_eq_true] at hg ho ⊢
         simp only [after_overran, Bool.or_eq_true] at ho
         simp only [after_kept, List.nil_append]
-        have hts : (body.run src ts).ts = ts := hpure src ts
+        have hts : (body.run src ts).ts = ts := hpure src ts v hres (by simpa using hok)
         have r := ih (m + 1) (by omega) (body.run src ts).src (body.run src ts).ts xs (good_after hg) (fun h => ho (Or.inr h))
         rw [hts] at r ⊢
         exact ⟨by simpa using r.res, r.src, by simpa using r.ts, by simpa using r.used, by simpa using r.kept⟩
+
+/-- `find` over a body that is prune-stable and leaves the `*T` alone on every run -/
+theorem ps_findLoop (body : Prog) (ok : Val → Bool) (k : Val → Prog)
+    (hb : PS body) (hpure : TsPure body) (hne : KeepsSome body) (hk : ∀ v, PS (k v)) :
+    ∀ (n m : Nat), n ≤ m → ∀ (src : Src) (ts : TS) (xs : List UInt64),
+      Good ((findLoop body ok k n).run src ts) → (((findLoop body ok k n).run src ts).overran = true → xs = []) →
+      Replayed ((findLoop body ok k n).run src ts)
+        ((findLoop body ok k m).run (.buf (((findLoop body ok k n).run src ts).kept ++ xs)) ts) xs :=
+  ps_findLoop' body ok k (fun src ts xs hg _ ho => hb src ts xs hg ho) (fun src ts _ _ _ => hpure src ts)
+    (fun src ts v h _ hu => hne src ts v h hu) hk
 
 end Rapid
